@@ -389,6 +389,16 @@ def reshape(a, *shape):
     if a.ndim != 1 or len(shape) != 2:
         raise Unsupported("reshape other than 1-d -> 2-d")
     r, c = shape
+    tl = a.meta.get("tile")
+    if tl is not None and const_value(to_term(c)) == -1 and z3.simplify(to_term(r) - tl[1]).eq(z3.IntVal(0)):
+        # tile(base, r).reshape((r, -1)) is the (r, n) array whose every row is base   (identity of the two
+        # index maps: (i*n + j) mod n = j for 0 <= j < n)
+        base = tl[0]
+        be = base._elem
+        if not Ctx.cur.branch(to_term(r) > 0):
+            raise ValueError("cannot reshape array of size 0 into shape (0,newaxis)")
+        Ctx.cur.trust("numpy:tile(a, r).reshape((r, -1))[i, j] == a[j]")
+        return SArr((norm_dim(num(r)) if is_sym(r) else r, base.shape[0]), lambda i, j: be(j), a.kind)
     total = dim_term(a.shape[0])
     if const_value(to_term(c)) == -1:
         rt = to_term(r)
@@ -435,6 +445,31 @@ def tile(a, reps):
                           patterns=[q(t)]), "numpy:tile")
     r = SArr((c if isinstance(c, int) else SNum(total),), lambda t: old(t - q(t) * n), a.kind)
     r.meta["tile"] = (a, rt, q)
+    return r
+
+
+def repeat(a, reps, axis=None):
+    """ASSUMED: np.repeat(a, r)[t] = a[t div r] for a 1-d array and a scalar r >= 0"""
+    if not anysym(a, reps):
+        return _np.repeat(a, reps, axis=axis)
+    a = _arr(a)
+    if a.ndim != 1 or axis is not None:
+        raise Unsupported("repeat of rank != 1")
+    rt = to_term(reps)
+    if not Ctx.cur.branch(rt >= 0):
+        raise ValueError("repeats may not contain negative values.")
+    n = dim_term(a.shape[0])
+    total = z3.simplify(rt * n)
+    c = const_value(total)
+    q = Ctx.cur.fresh_fn("repeat_q", z3.IntSort(), z3.IntSort())
+    t = bv("t")
+    Ctx.cur.assume(forall([t], z3.Implies(z3.And(t >= 0, t < total),
+                                          z3.And(q(t) >= 0, q(t) < n, q(t) * rt <= t, t < (q(t) + 1) * rt)),
+                          patterns=[q(t)]), "numpy:repeat")
+    Ctx.cur.trust("numpy:repeat(a, r)[t] == a[t div r]")
+    old = a._elem
+    r = SArr((c if isinstance(c, int) else SNum(total),), lambda t: old(q(t)), a.kind)
+    r.meta["repeat"] = (a, rt, q)
     return r
 
 
